@@ -104,6 +104,11 @@ type Interp struct {
 	// curFree holds them while that activation's frames are created.
 	pendingFree []Val
 	curFree     []Val
+	// Recursion is how many activations of one function may be nested inside
+	// an activation of the same function before a recursive call is cut off
+	// as unknown (0: never follow recursion; a query that evaluates a decoder
+	// on a nested item sets it to the nesting depth it needs).
+	Recursion int
 	// Marks is free for a rule's observers to record what they saw.
 	Marks map[string]bool
 	// NoPath disables path mode (diagnosis only).
@@ -486,12 +491,16 @@ func (in *Interp) run(fn *ssa.Function, args []Val, start *ssa.BasicBlock, outer
 	if fn.Blocks == nil {
 		return Outcome{CanReturn: true, CanPanic: false, Ret: nil}
 	}
+	active := 0
 	for _, f := range in.stack {
 		if f == fn {
-			return Outcome{CanReturn: true, CanPanic: true}
+			active++
 		}
 	}
-	if in.depth > 8 {
+	if active > in.Recursion {
+		return Outcome{CanReturn: true, CanPanic: true}
+	}
+	if in.depth > 8+6*in.Recursion {
 		return Outcome{CanReturn: true, CanPanic: true}
 	}
 	if !in.budget(fn) {
@@ -880,6 +889,9 @@ func (fr *frame) evalBlock(b *ssa.BasicBlock) {
 			case c.K == KBot:
 				// condition not yet computable (operands unreached): wait
 			default:
+				if os.Getenv("SC_TRACE6") != "" && fr.in.collect {
+					fmt.Fprintf(os.Stderr, "unknown branch in %s at %s: %s = %s\n", FnName(fr.fn), fr.in.Prog.Pos(i.Cond.Pos()), i.Cond.Name(), c)
+				}
 				if c.K == KTop && c.Dep {
 					fr.in.OpaqueSubject = true
 					fr.in.OpaqueAt = append(fr.in.OpaqueAt, fr.in.Prog.Pos(i.Cond.Pos()))
@@ -1369,6 +1381,11 @@ func (fr *frame) inputVal(path string, t types.Type) Val {
 	if v, ok := fr.in.InitBind[path]; ok {
 		return v
 	}
+	if strings.HasPrefix(path, "g:") {
+		if pat, ok := fr.in.Prog.patternOfGlobalPath(path); ok {
+			return Val{K: KPtr, S: regexpObj(pat)}
+		}
+	}
 	if path == "g:strconv.ErrRange" || path == "g:strconv.ErrSyntax" {
 		if st := fr.in.Prog.namedType("errors", "errorString"); st != nil {
 			inner := Val{K: KPtr, S: path + "!"}
@@ -1429,6 +1446,10 @@ func (fr *frame) load(path string, t types.Type) Val {
 				return c.V
 			}
 			return join(c.V, fr.inputVal(path, t))
+		}
+		// a map or slice header is not changed by writes to its elements
+		if _, isMap := t.Underlying().(*types.Map); isMap {
+			return fr.inputVal(path, t)
 		}
 		// input memory: its symbolic value as long as nothing overlapping was written
 		for k := range in.inputWrites {
